@@ -124,7 +124,8 @@ def run(prop, tier, seed, verdict):
             if got not in want:
                 what = {"notify": "no notification after an in-place modification of a .toml file",
                         "silent": "a notification although only non-TOML files (or metadata) were modified",
-                        "stops": "the watcher goroutine is still running 1 s after cancellation",
+                        "stops": "1 s after cancellation the watcher goroutine is still running, or (observed = leaked) it returned but the file-system "
+                                 "watcher was never closed: its reader goroutine / inotify descriptor is still there",
                         "closed": "the notification stream did not end within 1 s after cancellation"}[clause]
                 if clause in ("notify", "silent"):
                     names = sorted({nm for nm, _ in info[0]})
